@@ -4,10 +4,21 @@
 
 The body of `config_max_line_length` is *translated*: a small parser for the Rust subset the function is
 written in (one `match` on an expression or a tuple of expressions; arms with integer / `_` / binding /
-tuple patterns and optional `if` guards; blocks of `let` statements, one-parameter closures, calls,
-`std::cmp::max/min`, `+ * /`, comparisons) produces a Lean `if … then … else …` chain with the arms in
-source order (first match wins, as in Rust). Anything outside the subset stops the extraction
-(`SystemExit("extract: …")`), which the check reports as a broken tie.
+tuple patterns and optional `if` guards; blocks of `let` statements, one-parameter closures (parameter typed
+`: usize` or not), calls, `std::cmp::max/min`, `.max()/.min()`, `.saturating_add/_mul/_sub()`, `+ * /`,
+comparisons) produces a Lean `if … then … else …` chain with the arms in source order (first match wins, as in
+Rust). Anything outside the subset stops the extraction (`SystemExit("extract: …")`), which the check reports
+as a broken tie.
+
+Two definitions are produced from the same syntax tree:
+* `configMaxLineLength … : Nat` — `usize` as `Nat`: plain `+ * /` are the `Nat` operations (equal to the Rust
+  ones as long as no intermediate value exceeds `usize::MAX`), `a.saturating_add(b)` is
+  `Usize.satAdd a b = min (a + b) usizeMax`, likewise `satMul`, `satSub`;
+* `configMaxLineLengthChecked … : Option Nat` — the same arms with the arithmetic of a build with overflow
+  checks (the dev profile): every plain `+ *` is `none` (= panic) when the result exceeds `usize::MAX`, `/ %`
+  when the divisor is 0; saturating operations, `max`, `min` always return. `let`s and calls are strict
+  (`Option.bind`), as in Rust. With it the proviso of the first definition is a theorem
+  (`Props/C07.lean: max_line_length_nat_model_faithful`, `max_line_length_total`).
 """
 import os
 import re
@@ -37,7 +48,7 @@ _TOK = re.compile(r"""
     (?P<ws>\s+|//[^\n]*)
   | (?P<int>\d[\d_]*(?:usize|u64|u32)?)
   | (?P<id>[A-Za-z_][A-Za-z0-9_]*(?:::[A-Za-z_][A-Za-z0-9_]*)*)
-  | (?P<op>=>|==|!=|<=|>=|&&|\|\||[-+*/%(){},;|=<>!.&])
+  | (?P<op>=>|==|!=|<=|>=|&&|\|\||[-+*/%(){},;|=<>!.&:])
 """, re.X)
 
 
@@ -85,6 +96,11 @@ class _P:
             kind, name = self.next()
             if kind != "id" or "::" in name:
                 _stop("unsupported let pattern %r" % name)
+            if self.at(":"):
+                self.next()
+                tk, ty = self.next()
+                if tk != "id" or ty != "usize":
+                    _stop("let %s has the type %r (only usize is translated)" % (name, ty))
             self.eat("=")
             e = self.expr()
             self.eat(";")
@@ -97,8 +113,13 @@ class _P:
         if self.at("|"):
             self.next()
             kind, name = self.next()
-            if kind != "id":
+            if kind != "id" or "::" in name:
                 _stop("unsupported closure parameter")
+            if self.at(":"):
+                self.next()
+                tk, ty = self.next()
+                if tk != "id" or ty != "usize":
+                    _stop("closure parameter %r has the type %r (only usize is translated)" % (name, ty))
             self.eat("|")
             return ("closure", name, self.expr())
         if self.at("match"):
@@ -229,6 +250,43 @@ class _P:
 
 # ------------------------------------------------------------------ Lean printer
 
+_SAT = {"saturating_add": "satAdd", "saturating_mul": "satMul", "saturating_sub": "satSub"}
+_MAX = ("std::cmp::max", "cmp::max", "max", "core::cmp::max")
+_MIN = ("std::cmp::min", "cmp::min", "min", "core::cmp::min")
+
+# definitions every generated file starts with (namespace Generated.Usize)
+USIZE_PRELUDE = """/-! `usize` arithmetic (64-bit target). -/
+namespace Usize
+/-- `usize::MAX` = 2^64 - 1 -/
+def usizeMax : Nat := 18446744073709551615
+/-- `a.saturating_add(b)` -/
+def satAdd (a b : Nat) : Nat := min (a + b) usizeMax
+/-- `a.saturating_mul(b)` -/
+def satMul (a b : Nat) : Nat := min (a * b) usizeMax
+/-- `a.saturating_sub(b)` (`Nat` subtraction stops at 0) -/
+def satSub (a b : Nat) : Nat := a - b
+
+/-- An operation on two evaluated operands; `none` = the operand (or the operation) panicked. -/
+def ck2 (f : Nat → Nat → Option Nat) (a b : Option Nat) : Option Nat :=
+  a.bind fun x => b.bind fun y => f x y
+/-- `a + b` with overflow checks: `attempt to add with overflow` = `none` -/
+def ckAdd : Option Nat → Option Nat → Option Nat := ck2 fun x y => if x + y ≤ usizeMax then some (x + y) else none
+/-- `a * b` with overflow checks: `attempt to multiply with overflow` = `none` -/
+def ckMul : Option Nat → Option Nat → Option Nat := ck2 fun x y => if x * y ≤ usizeMax then some (x * y) else none
+/-- `a / b`: `attempt to divide by zero` = `none` -/
+def ckDiv : Option Nat → Option Nat → Option Nat := ck2 fun x y => if y = 0 then none else some (x / y)
+/-- `a % b`: division by zero = `none` -/
+def ckRem : Option Nat → Option Nat → Option Nat := ck2 fun x y => if y = 0 then none else some (x % y)
+def ckSatAdd : Option Nat → Option Nat → Option Nat := ck2 fun x y => some (satAdd x y)
+def ckSatMul : Option Nat → Option Nat → Option Nat := ck2 fun x y => some (satMul x y)
+def ckSatSub : Option Nat → Option Nat → Option Nat := ck2 fun x y => some (satSub x y)
+def ckMax : Option Nat → Option Nat → Option Nat := ck2 fun x y => some (max x y)
+def ckMin : Option Nat → Option Nat → Option Nat := ck2 fun x y => some (min x y)
+end Usize
+
+"""
+
+
 class _Gen:
     """Translates the AST. `env`: Rust name -> Lean text of what it stands for (parameters, pattern
     bindings are substituted; `let`s and closures become Lean `let` / `fun`)."""
@@ -262,9 +320,9 @@ class _Gen:
             return "(¬ %s)" % self.expr(e[1], env, ind)
         if k == "call":
             f, args = e[1], e[2]
-            if f[0] == "var" and f[1] in ("std::cmp::max", "cmp::max", "max", "core::cmp::max") and len(args) == 2:
+            if f[0] == "var" and f[1] in _MAX and f[1] not in env and len(args) == 2:
                 return "(max %s %s)" % (self.expr(args[0], env, ind), self.expr(args[1], env, ind))
-            if f[0] == "var" and f[1] in ("std::cmp::min", "cmp::min", "min", "core::cmp::min") and len(args) == 2:
+            if f[0] == "var" and f[1] in _MIN and f[1] not in env and len(args) == 2:
                 return "(min %s %s)" % (self.expr(args[0], env, ind), self.expr(args[1], env, ind))
             if f[0] == "var" and f[1] in env and len(args) == 1:
                 return "(%s %s)" % (env[f[1]], self.expr(args[0], env, ind))
@@ -273,8 +331,8 @@ class _Gen:
             name, recv, args = e[1], e[2], e[3]
             if name in ("max", "min") and len(args) == 1:
                 return "(%s %s %s)" % (name, self.expr(recv, env, ind), self.expr(args[0], env, ind))
-            if name == "saturating_sub" and len(args) == 1:
-                return "(%s - %s)" % (self.expr(recv, env, ind), self.expr(args[0], env, ind))
+            if name in _SAT and len(args) == 1:
+                return "(Usize.%s %s %s)" % (_SAT[name], self.expr(recv, env, ind), self.expr(args[0], env, ind))
             _stop("unsupported method .%s()" % name)
         if k == "closure":
             p = _camel(e[1])
@@ -352,6 +410,128 @@ class _Gen:
         return out
 
 
+def _arith_free(e):
+    """conditions / scrutinees the checked translation evaluates as they are: no operation that could panic"""
+    k = e[0]
+    if k in ("int", "var"):
+        return True
+    if k == "field":
+        return e[1] == ("var", "self")
+    if k == "bin":
+        return e[1] in ("==", "!=", "<", ">", "<=", ">=", "&&", "||") and _arith_free(e[2]) and _arith_free(e[3])
+    if k == "not":
+        return _arith_free(e[1])
+    if k == "tuple":
+        return all(_arith_free(x) for x in e[1])
+    return False
+
+
+class _Chk:
+    """The same syntax tree with the arithmetic of a build with overflow checks: every expression becomes an
+    `Option Nat` (`none` = panic). `env`: Rust name -> Lean text of a `Nat` (parameters, pattern bindings, evaluated
+    `let`s, closure parameters); names in `closures` are Lean functions `Nat -> Option Nat`."""
+
+    _BIN = {"+": "ckAdd", "*": "ckMul", "/": "ckDiv", "%": "ckRem"}
+    _METH = {"max": "ckMax", "min": "ckMin", "saturating_add": "ckSatAdd", "saturating_mul": "ckSatMul",
+             "saturating_sub": "ckSatSub"}
+
+    def __init__(self):
+        self.nat = _Gen()
+
+    def cond(self, e, env, ind):
+        if not _arith_free(e):
+            _stop("a condition / match scrutinee of config_max_line_length contains arithmetic or a call "
+                  "(not in the subset of the overflow-checked translation)")
+        return self.nat.expr(e, env, ind)
+
+    def expr(self, e, env, clos, ind):
+        k = e[0]
+        if k == "int":
+            return "(some %d)" % e[1]
+        if k == "var":
+            if e[1] in clos:
+                _stop("closure %r used as a value" % e[1])
+            if e[1] in env:
+                return "(some %s)" % env[e[1]]
+            _stop("unknown name %r in config_max_line_length" % e[1])
+        if k == "field":
+            return "(some %s)" % self.nat.expr(e, env, ind)
+        if k == "bin":
+            op = e[1]
+            if op == "-":
+                _stop("usize subtraction (a panic point) is not in the translated subset")
+            if op not in self._BIN:
+                _stop("comparison %r outside a condition" % op)
+            return "(Usize.%s %s %s)" % (self._BIN[op], self.expr(e[2], env, clos, ind), self.expr(e[3], env, clos, ind))
+        if k == "call":
+            f, args = e[1], e[2]
+            if f[0] == "var" and f[1] not in env and len(args) == 2 and (f[1] in _MAX or f[1] in _MIN):
+                return "(Usize.%s %s %s)" % ("ckMax" if f[1] in _MAX else "ckMin", self.expr(args[0], env, clos, ind),
+                                              self.expr(args[1], env, clos, ind))
+            if f[0] == "var" and f[1] in clos and len(args) == 1:
+                return "(%s.bind %s)" % (self.expr(args[0], env, clos, ind), env[f[1]])
+            _stop("unsupported call of %r" % (f[1] if f[0] == "var" else f[0]))
+        if k == "method":
+            name, recv, args = e[1], e[2], e[3]
+            if name in self._METH and len(args) == 1:
+                return "(Usize.%s %s %s)" % (self._METH[name], self.expr(recv, env, clos, ind), self.expr(args[0], env, clos, ind))
+            _stop("unsupported method .%s()" % name)
+        if k == "closure":
+            _stop("closure outside a `let`")
+        if k == "block":
+            env, clos = dict(env), set(clos)
+            out = ""
+            pad = " " * ind
+            for name, val in e[1]:
+                ln = _camel(name)
+                if val[0] == "closure":
+                    p = _camel(val[1])
+                    body = self.expr(val[2], dict(env, **{val[1]: p}), clos - {val[1]}, ind + 2)
+                    out += "\n%slet %s := (fun (%s : Nat) => %s)" % (pad, ln, p, body)
+                    clos.add(name)
+                else:
+                    out += "\n%s%s.bind fun %s =>" % (pad, self.expr(val, env, clos, ind + 2), ln)
+                    clos.discard(name)
+                env[name] = ln
+            body = self.expr(e[2], env, clos, ind)
+            return (out + "\n" + pad + body) if e[1] else body
+        if k == "ifelse":
+            pad = " " * ind
+            return "(if %s then %s\n%selse %s)" % (self.cond(e[1], env, ind), self.expr(e[2], env, clos, ind + 2), pad,
+                                                    self.expr(e[3], env, clos, ind + 2))
+        if k == "match":
+            return self.match(e, env, clos, ind)
+        _stop("unsupported construct %r" % k)
+
+    def match(self, e, env, clos, ind):
+        scrut, arms = e[1], e[2]
+        if not _arith_free(scrut):
+            _stop("the match scrutinee of config_max_line_length contains arithmetic or a call")
+        if scrut[0] == "tuple":
+            sc = [self.nat.expr(x, env, ind) for x in scrut[1]]
+        else:
+            sc = self.nat.expr(scrut, env, ind)
+        pad = " " * ind
+        out, closed = "", False
+        for pat, guard, body in arms:
+            if closed:
+                _stop("arm after an irrefutable arm")
+            conds, binds = self.nat.pat(pat, sc, env)
+            env2 = dict(env, **binds)
+            clos2 = clos - set(binds)
+            if guard is not None:
+                conds = conds + [self.cond(guard, env2, ind)]
+            b = self.expr(body, env2, clos2, ind + 4)
+            if conds:
+                out += "if %s then %s\n%selse " % (" ∧ ".join(conds), b, pad)
+            else:
+                out += b
+                closed = True
+        if not closed:
+            _stop("match without a final irrefutable arm")
+        return out
+
+
 def _fn_body(src, name):
     m = re.search(r"\bfn %s\s*\(([^)]*)\)\s*->\s*usize\s*\{" % re.escape(name), src)
     if not m:
@@ -386,6 +566,7 @@ def gen_wrap_max_line_length(repo):
     g = _Gen()
     env = {n: _camel(n) for n in names}
     body = g.expr(ast, env, 2)
+    chk_body = _Chk().expr(ast, env, set(), 2)
     if g.self_fields != ["max_lines"]:
         _stop("config_max_line_length reads the fields %r of WrapConfig (expected: max_lines)" % g.self_fields)
     lean_params = [_camel(f) for f in g.self_fields] + [_camel(n) for n in names]
@@ -420,22 +601,31 @@ def gen_wrap_max_line_length(repo):
     if not re.search(r"ansi::truncate_str\(\s*&self\.raw_line,\s*self\.config\.max_line_length,\s*&self\.config\.truncation_symbol,?\s*\)", de):
         _stop("ingest_line_utf8: truncate_str(raw_line, config.max_line_length, truncation_symbol) not found")
 
-    # --- adapt_wrap_max_lines_argument
+    # --- adapt_wrap_max_lines_argument: `<parsed number> + N` (as pinned) or `<parsed number>.saturating_add(N)`
+    # (notes/fix-wrap-max-lines-overflow.diff)
     m = re.search(r'fn adapt_wrap_max_lines_argument\(arg: String\) -> usize \{\s*'
                   r'if arg == "∞" \|\| arg == "unlimited" \|\| arg\.starts_with\("inf"\) \{\s*(\d+)\s*\} else \{\s*'
-                  r'arg\.parse::<usize>\(\)\s*\.unwrap_or_else\([^\n]*\)\s*\+ (\d+)\s*\}\s*\}', wr)
+                  r'arg\.parse::<usize>\(\)\s*\.unwrap_or_else\([^\n]*\)\s*'
+                  r'(?:\+ (\d+)|\.saturating_add\((\d+)\))\s*\}\s*\}', wr)
     if not m:
         _stop("adapt_wrap_max_lines_argument has an unknown shape")
-    unlimited, inc = int(m.group(1)), int(m.group(2))
+    unlimited = int(m.group(1))
+    inc_saturates = m.group(2) is None
+    inc = int(m.group(3) if inc_saturates else m.group(2))
     if not re.search(r"max_lines: adapt_wrap_max_lines_argument\(opt\.wrap_max_lines\.clone\(\)\),", wr):
         _stop("WrapConfig::from_opt: max_lines is no longer adapt_wrap_max_lines_argument(opt.wrap_max_lines)")
 
     out = "-- GENERATED by /verif/tools/extractors/wrap_maxlen.py from /repo/src — do not edit.\n"
     out += "namespace Generated\n\n"
+    out += USIZE_PRELUDE
     out += ("/-- `WrapConfig::config_max_line_length` (src/wrapping.rs), translated arm by arm in source order\n"
-            "    (`match` = first arm that applies). `maxLines` = `self.max_lines`. `usize` as `Nat`: equal as long as\n"
-            "    no intermediate value exceeds `usize::MAX`. -/\n")
+            "    (`match` = first arm that applies). `maxLines` = `self.max_lines`. `usize` as `Nat`: plain `+ * /` equal the\n"
+            "    Rust operations as long as no intermediate value exceeds `usize::MAX` (made precise by\n"
+            "    `configMaxLineLengthChecked`); `saturating_*` = `Usize.sat*`. -/\n")
     out += "def configMaxLineLength (%s : Nat) : Nat :=\n  %s\n\n" % (" ".join(lean_params), body.lstrip("\n "))
+    out += ("/-- The same arms with the arithmetic of a build with overflow checks (dev profile): `none` = panic\n"
+            "    (`attempt to add / multiply with overflow`, division by zero); `let`s and calls are strict. -/\n")
+    out += "def configMaxLineLengthChecked (%s : Nat) : Option Nat :=\n  %s\n\n" % (" ".join(lean_params), chk_body.lstrip("\n "))
     out += ("/-- The width `Config::from` hands to `config_max_line_length` (`%s`). `fixedWidth` = `Some(N)` for\n"
             "    `opt.computed.decorations_width = Width::Fixed(N)` (`--width N`, or no `--width`: then N = the terminal width),\n"
             "    `none` for `--width variable`. -/\n" % a2)
@@ -450,8 +640,15 @@ def gen_wrap_max_line_length(repo):
             "  else optMaxLineLength\n\n")
     out += ("/-- `adapt_wrap_max_lines_argument`: `WrapConfig.max_lines` for `--wrap-max-lines unlimited` (also `∞`, `inf…`) -/\n"
             "def wrapMaxLinesUnlimited : Nat := %d\n" % unlimited)
-    out += ("/-- `adapt_wrap_max_lines_argument`: `WrapConfig.max_lines` = argument + this -/\n"
+    out += ("/-- `adapt_wrap_max_lines_argument`: `WrapConfig.max_lines` = argument + this (`+`, or `saturating_add`) -/\n"
             "def wrapMaxLinesIncrement : Nat := %d\n" % inc)
+    out += ("/-- `adapt_wrap_max_lines_argument`: `WrapConfig.max_lines` for a numeric argument `n` (source: `%s`) -/\n"
+            "def wrapMaxLinesOfNumber (n : Nat) : Nat := %s\n"
+            % (".saturating_add(%d)" % inc if inc_saturates else "+ %d" % inc,
+               "(Usize.satAdd n %d)" % inc if inc_saturates else "(n + %d)" % inc))
+    out += ("/-- … with the arithmetic of a build with overflow checks: `none` = panic -/\n"
+            "def wrapMaxLinesOfNumberChecked (n : Nat) : Option Nat := (Usize.%s (some n) (some %d))\n"
+            % ("ckSatAdd" if inc_saturates else "ckAdd", inc))
     out += "\nend Generated\n"
     return out
 
